@@ -125,12 +125,39 @@ pub fn chains_end(ss: &SubstitutionSet) -> Option<usize> {
     None
 }
 
-pub struct Cfg { pub props: Vec<String> }
+pub struct Cfg { pub props: Vec<String>, pub renamed: bool }
 impl Cfg { pub fn want(&self, p: &str) -> bool { self.props.iter().any(|x| x == p) } }
 
 /// emit one case: CASE / IMPL lines plus the oracle verdicts requested
+/// the subject pair as the engine would see it: each side renamed apart like a rule head and a
+/// query (own name maps, ids above everything used so far)
+fn rename_last(pairs: &[Pair]) -> Vec<Pair> {
+    let mut v = pairs.to_vec();
+    let k = v.len() - 1;
+    let zero = |t: &Unifiable| -> Unifiable { zero_ids(t) };
+    let (a, b) = (zero(&v[k].0), zero(&v[k].1));
+    set_var_id(20);
+    let a2 = a.recreate_variables(&mut VarMap::new());
+    let b2 = b.recreate_variables(&mut VarMap::new());
+    v[k] = (a2, b2);
+    v
+}
+fn zero_ids(t: &Unifiable) -> Unifiable {
+    match t {
+        Unifiable::LogicVar{name, ..} => Unifiable::LogicVar{id: 0, name: name.clone()},
+        Unifiable::SComplex(a) => Unifiable::SComplex(a.iter().map(zero_ids).collect()),
+        Unifiable::SFunction{name, terms} => Unifiable::SFunction{name: name.clone(), terms: terms.iter().map(zero_ids).collect()},
+        Unifiable::SLinkedList{term, next, count, tail_var} => Unifiable::SLinkedList{term: Box::new(zero_ids(term)), next: Box::new(zero_ids(next)), count: *count, tail_var: *tail_var},
+        _ => t.clone(),
+    }
+}
+
 pub fn emit(out: &mut Out, cfg: &Cfg, pairs: &[Pair]) {
     if !out.begin() { return; }
+    let renamed_store;
+    let pairs: &[Pair] = if cfg.renamed {
+        match catch_unwind(AssertUnwindSafe(|| rename_last(pairs))) { Ok(v) => { renamed_store = v; &renamed_store }, Err(_) => pairs }
+    } else { pairs };
     let rr = ref_run(pairs);
     if rr.occurs { out.stat("skipped_occurs", 1); return; }
     let id = out.case(&enc_case(pairs));
